@@ -57,6 +57,14 @@ CHECKS = {
    text="Payload.tla holds the correspondence attribute path <-> protobuf field (numbers, wire types, kinds frozen from e2e.proto's descriptor in PayloadSchema.tla); for every generated attribute object (11 content kinds x optional-field subsets {required only, all, each optional alone, random} x value classes {empty, unicode, zero, large, binary, enum members} x quoting depth 0..3) TLC computes the expected wire fields and checks the model round trip. The harness builds the real attribute objects through their constructors, serialises with message_to_protobytes and parses the bytes with a generic protobuf reader (no generated classes): fields must equal TLC's; protobytes_to_message must return every field set with the same value; bytes written by a generic writer from TLC's fields (a peer's payload) must be re-serialised unchanged. PayloadEntity.tla (edit in place / replace / serialise / forward histories, TLC-checked freshness) is replayed on real message entities.",
    note="Exploration level: the enumeration is structured and seeded, not exhaustive over values. An empty conversation string is not generated. Trusts the generic reader/writer (60 lines) and TLC's evaluation.",
    technique="TLA+ field-correspondence model evaluated by TLC as oracle (term interpretation) + generic protobuf reader/writer; TLC behaviour replay for entity histories"),
+ "C11": dict(level="model_checking", design="4/C11",
+   text="SendPath.tla models the threads' walks through the per-layer lock chain (hand-over-hand toLower), the coder, the noise layer's encrypt-with-counter / write-queue put+get, and the two-part segment write, one action per lock or queue operation; TLC exhaustively checks 2-3 threads x 1-2 stanzas with mixed entry layers and concurrent incoming frames (all interleavings, with weak fairness: termination) against WholeFrames, CounterOrder, ExactlyOnce, UpInOrder. Each TLC schedule of a transition cover is replayed step by step on a real network|segments|noise|coder|logger|mid|top stack (handshake done against the Noise server double) under a deterministic scheduler whose yield points are exactly the Lock / Queue operations - the evidence records how many schedules were realised exactly (drift = 0 on the pinned tree) - plus PCT-random schedules; the bytes at the dispatcher are parsed into frames and decrypted by a strict in-order peer.",
+   note="Preemption is possible only at Lock / Queue operations (one managed thread runs at a time); 4-thread configurations are covered by random schedules only in the thorough tier. The keep-alive thread is represented by a thread entering below the top layer.",
+   technique="TLA+ spec + TLC exhaustive model checking of interleavings; schedule replay into the real stack under a deterministic thread scheduler"),
+ "C12": dict(level="model_checking", design="4/C12",
+   text="SendPath.tla with fault actions (unencodable value at the coder, session not ready and oversized frame at the noise/segments layers, a raising layer above the coder, a raising application callback and an undecodable frame on the way up) and the switches ReleaseOnException / SizeCheckedFirst; TLC checks Reported, NoLockLeak, NotStuck, AllReceived, CounterOrder and termination under fairness for every failure site followed by same-thread and other-thread sends and receives; the as-read switch settings must violate NoLockLeak / CounterOrder (self-test). Schedules are replayed on the real stack under the deterministic scheduler with the concrete faults; a follow-up that cannot proceed is a detected deadlock.",
+   note="Failure sites inside the protocol / encryption layers of the full default stack and reconnects are exercised by C16 / C06's rigs, not here. Oversized-frame cases are replayed on few schedules (each needs a 16 MiB stanza).",
+   technique="TLA+ spec with fault actions + TLC (safety + liveness); schedule replay with fault injection under a deterministic thread scheduler"),
 }
 NA_REASON = "check not built yet in this session (planned: see DESIGN.md section 4)"
 
